@@ -29,6 +29,7 @@ import (
 	"log/slog"
 	"math/big"
 	"net/http/httptest"
+	"net/url"
 	"os"
 	"path/filepath"
 	"sync"
@@ -49,6 +50,10 @@ import (
 	"github.com/nginx/kubernetes-ingress/pkg/apis/configuration/validation"
 	conffake "github.com/nginx/kubernetes-ingress/pkg/client/clientset/versioned/fake"
 	"github.com/nginx/nginx-plus-go-client/v2/client"
+	"github.com/spiffe/go-spiffe/v2/bundle/x509bundle"
+	"github.com/spiffe/go-spiffe/v2/spiffeid"
+	"github.com/spiffe/go-spiffe/v2/svid/x509svid"
+	"github.com/spiffe/go-spiffe/v2/workloadapi"
 	api_v1 "k8s.io/api/core/v1"
 	networking "k8s.io/api/networking/v1"
 	meta_v1 "k8s.io/apimachinery/pkg/apis/meta/v1"
@@ -131,9 +136,121 @@ func main() {
 				c.Obs["error"] = fmt.Sprintf("panic in harness: %v", r)
 			}
 		}()
+		spiffeScenario(*repo, &c)
 		run(*repo, &c, iter)
 	}()
 	w.Emit(c)
+}
+
+// newConfigurator builds the production Configurator over the fake NGINX manager.
+func newConfigurator(ctx context.Context, repo string) (*configs.Configurator, error) {
+	tpl := func(p string) string { return filepath.Join(repo, "internal/configs", p) }
+	te, err := version1.NewTemplateExecutor(tpl("version1/nginx-plus.tmpl"), tpl("version1/nginx-plus.ingress.tmpl"))
+	if err != nil {
+		return nil, err
+	}
+	te2, err := version2.NewTemplateExecutor(tpl("version2/nginx-plus.virtualserver.tmpl"), tpl("version2/nginx-plus.transportserver.tmpl"))
+	if err != nil {
+		return nil, err
+	}
+	nginxVersion := nginx.NewVersion("nginx version: nginx/1.25.3 (nginx-plus-r31)")
+	static := &configs.StaticConfigParams{HealthStatus: true, HealthStatusURI: "/nginx-health", NginxStatus: true,
+		NginxStatusAllowCIDRs: []string{"127.0.0.1"}, NginxStatusPort: 8080, NginxServiceMesh: true, NginxVersion: nginxVersion}
+	return configs.NewConfigurator(configs.ConfiguratorParams{
+		NginxManager: nginx.NewFakeManager("/etc/nginx"), StaticCfgParams: static, Config: configs.NewDefaultConfigParams(ctx, true),
+		MGMTCfgParams: configs.NewDefaultMGMTConfigParams(ctx), TemplateExecutor: te, TemplateExecutorV2: te2,
+		LabelUpdater: nopLabels{}, LatencyCollector: collectors.NewLatencyFakeCollector(), IsPlus: true, NginxVersion: nginxVersion,
+	}), nil
+}
+
+func x509Context() (*workloadapi.X509Context, error) {
+	key, err := ecdsa.GenerateKey(elliptic.P256(), rand.Reader)
+	if err != nil {
+		return nil, err
+	}
+	id := spiffeid.RequireFromString("spiffe://example.org/ns/nginx-ingress/sa/nginx-ingress")
+	tmpl := &x509.Certificate{SerialNumber: big.NewInt(1), Subject: pkix.Name{CommonName: "verif"},
+		NotBefore: time.Now().Add(-time.Hour), NotAfter: time.Now().Add(time.Hour), URIs: []*url.URL{id.URL()},
+		IsCA: true, BasicConstraintsValid: true, KeyUsage: x509.KeyUsageDigitalSignature | x509.KeyUsageCertSign}
+	der, err := x509.CreateCertificate(rand.Reader, tmpl, tmpl, &key.PublicKey, key)
+	if err != nil {
+		return nil, err
+	}
+	cert, err := x509.ParseCertificate(der)
+	if err != nil {
+		return nil, err
+	}
+	return &workloadapi.X509Context{
+		SVIDs:   []*x509svid.SVID{{ID: id, Certificates: []*x509.Certificate{cert}, PrivateKey: key}},
+		Bundles: x509bundle.NewSet(x509bundle.FromX509Authorities(id.TrustDomain(), []*x509.Certificate{cert})),
+	}, nil
+}
+
+// spiffeScenario: the controller configured for SPIFFE (spiffeCertFetcher set, so sync takes syncLock), the
+// production sync run by one goroutine on ConfigMap tasks -- the first task of the initial sync, then batches of
+// two (the first holds reloads back, the last one of the batch applies them) -- beside the production
+// syncSVIDRotation on certificates the harness makes up.  No SPIRE agent and no lbc.Run(): the harness plays
+// the work-queue worker (VerifSync) and the fetcher's channel.
+func spiffeScenario(repo string, c *Case) {
+	logger := slog.New(slog.NewTextHandler(io.Discard, &slog.HandlerOptions{Level: slog.LevelError}))
+	ctx := nl.ContextWithLogger(context.Background(), logger)
+	cnf, err := newConfigurator(ctx, repo)
+	if err != nil {
+		c.Obs["spiffe_error"] = err.Error()
+		return
+	}
+	x, err := x509Context()
+	if err != nil {
+		c.Obs["spiffe_error"] = err.Error()
+		return
+	}
+	kube := k8sfake.NewSimpleClientset()
+	pod := &api_v1.Pod{ObjectMeta: meta_v1.ObjectMeta{Name: "verif-pod", Namespace: ctrlNS}}
+	lbc := k8s.NewLoadBalancerController(k8s.NewLoadBalancerControllerInput{
+		KubeClient: kube, ConfClient: conffake.NewSimpleClientset(), Recorder: &record.FakeRecorder{}, ResyncPeriod: 30 * time.Second,
+		LoggerContext: ctx, Namespace: []string{""}, SecretNamespace: []string{""}, NginxConfigurator: cnf,
+		IsNginxPlus: true, IngressClass: class, ControllerNamespace: ctrlNS, Pod: pod, AreCustomResourcesEnabled: true,
+		MetricsCollector:             collectors.NewControllerFakeCollector(),
+		GlobalConfigurationValidator: validation.NewGlobalConfigurationValidator(map[int]bool{}),
+		TransportServerValidator:     validation.NewTransportServerValidator(false, false, true),
+		VirtualServerValidator:       validation.NewVirtualServerValidator(validation.IsPlus(true)),
+	})
+	k8s.VerifEnableSpiffe(lbc)
+	cm := func(i int) *api_v1.ConfigMap {
+		return &api_v1.ConfigMap{ObjectMeta: meta_v1.ObjectMeta{Name: fmt.Sprintf("cm%d", i), Namespace: ctrlNS}}
+	}
+	var wg sync.WaitGroup
+	var stop atomic.Bool
+	wg.Add(2)
+	go func() { // the certificate rotation goroutine
+		defer wg.Done()
+		defer func() { recover() }()
+		for !stop.Load() {
+			k8s.VerifSyncSVIDRotation(lbc, x)
+			c.Observed["spiffe-rotation"]++
+			time.Sleep(200 * time.Microsecond)
+		}
+	}()
+	go func() { // the control-loop worker
+		defer wg.Done()
+		defer stop.Store(true)
+		defer func() {
+			if r := recover(); r != nil {
+				c.Obs["spiffe_error"] = fmt.Sprintf("panic: %v", r)
+			}
+		}()
+		k8s.VerifSync(lbc, cm(0)) // last task of the initial sync: NGINX becomes ready
+		for i := 0; i < 150; i++ {
+			lbc.AddSyncQueue(cm(1))
+			lbc.AddSyncQueue(cm(2))
+			k8s.VerifSync(lbc, cm(1)) // first of a batch: reloads are held back
+			k8s.VerifDrainQueue(lbc)
+			k8s.VerifSync(lbc, cm(2)) // last of the batch: reloads are enabled again and applied
+			c.Ops["spiffe-batch"]++
+			time.Sleep(300 * time.Microsecond)
+		}
+	}()
+	wg.Wait()
 }
 
 func run(repo string, c *Case, iter int) {
